@@ -123,7 +123,7 @@ CHECKS = {
                 "executed: the call or compute() must raise with the unique token, the injected type, group and model name and (sequentially) the run's parameter values; no result object, no later call, "
                 "no computable bucket of the failing run. Fault enumeration: complete per configuration, configurations sampled.",
         "design_ref": "DESIGN.md section 3, C09",
-        "note": "Calibration-phase faults are enumerated in the calibration part once registered. The dask metadata run may surface the fault at run_mode. Entry points: pyxel.run_mode, pyxel.run(<yaml>) with and without an outputs section, pyxel.exposure_mode / observation_mode (finding F36, fixed; the parameter-value note is asserted only behind run_mode / run, where the property places it). A third of the configurations raise the very same exception object at every site. A third of the configurations set a working directory on the running mode. Exception classes include one whose constructor arguments are not its args and a FileNotFoundError carrying a file name.",
+        "note": "Calibration-phase faults are enumerated in the calibration part once registered. The dask metadata run may surface the fault at run_mode. Entry points: pyxel.run_mode, pyxel.run(<yaml>) with and without an outputs section, pyxel.exposure_mode / observation_mode (finding F36, fixed; the parameter-value note is asserted only behind run_mode / run, where the property places it). A third of the configurations raise the very same exception object at every site. A third of the configurations set a working directory on the running mode. Exception classes include one whose constructor arguments are not its args and a FileNotFoundError carrying a file name. Every exception class x six kinds of running mode is enumerated on one fixed two-model pipeline on every run.",
     },
     "C19": {
         "technique": "property-based testing of generated start histories with a harness-owned clock (same-second starts constructed), barrier-released concurrent starts and pre-populated colliding names; read-back differential of every reported file against the result bucket with the same label; before/after content hash of pre-existing files",
@@ -156,7 +156,7 @@ CHECKS = {
                 "4 listed as skipped) must be reproducible and state-preserving; generated pipelines of the stochastic library models with a pipeline_seed must give bit-identical result trees in exposure, sequential and dask "
                 "observation and calibration from different prior states, after unseeded or failing runs, and restore the generator also when a model raises; unseeded random models must not re-seed the process. Exploration.",
         "design_ref": "DESIGN.md section 3, C04",
-        "note": "Dask paths on the synchronous scheduler (threaded race = C07's known finding K2). Every model with a seed argument has a recipe (17 models, 34 option variants incl. charge_deposition with tabulated spectra, cosmix, nghxrg), each option variant taking another random-number path. pulse_processing's minutes-long phase conversion is stubbed from outside. The ends of both seed ranges (pipeline_seed 0 / 2^32-1, pygmo_seed 0 / 1 / 100000) are enumerated for calibration. Half of the run cases repeat the run on the very same detector / pipeline / mode objects instead of rebuilding them. A third of the 'runs' cases write outputs into one parent folder (the second start finds the first one's folder name taken). Every seeded model is also called on a detector standing at the second of three readouts.",
+        "note": "Dask paths on the synchronous scheduler (threaded race = C07's known finding K2). Every model with a seed argument has a recipe (17 models, 34 option variants incl. charge_deposition with tabulated spectra, cosmix, nghxrg), each option variant taking another random-number path. pulse_processing's minutes-long phase conversion is stubbed from outside. The ends of both seed ranges (pipeline_seed 0 / 2^32-1, pygmo_seed 0 / 1 / 100000) are enumerated for calibration. Half of the run cases repeat the run on the very same detector / pipeline / mode objects instead of rebuilding them. A third of the 'runs' cases write outputs into one parent folder (the second start finds the first one's folder name taken). Every seeded model is also called on a detector standing at the second of three readouts. Every stochastic library model followed by a later stochastic probe is exposed twice on the very same objects on every run (enumerated).",
     },
     "C07": {
         "technique": "differential property-based testing: with_dask result under generated schedulers (synchronous, thread pools of 1/2/4/16, process pools of 2/4) with data-dependent delays vs the sequential result, compared label by label; harness-owned schedule (barrier) for the known seeding race; calibration outcome differential across schedulers and island-creation modes",
